@@ -72,15 +72,35 @@ theorem print_read_line (o : Opts) (r : Route) (fmt : Bytes → Bytes)
     read (body o r fmt v ++ [0x0a]) = .ok (canon o r fmt v) :=
   print_read o r fmt hfmt v hv [0x0a] (by decide)
 
-/-- the identity fast path echoes the input span and a newline: whatever the span reads as, the
-output reads as (trailing whitespace is insignificant) — stated for spans that are printer images,
-the general statement needs locality of the reader and is not proved. -/
-theorem print_fast_read_partial (c : Cfg) (hu : c.unit.all isWs = true) (hf : FmtOK c) (v : V) (hv : v.wf = true) :
-    read (printFast (render c 0 v)) = read (render c 0 v) := by
-  unfold printFast
-  rw [read_render c hu hf v hv 0 [0x0a] (by decide)]
-  have := read_render c hu hf v hv 0 [] (by decide)
-  simpa using this.symm
+/-- `print_fast_read`: the identity fast path echoes the input span and a newline; whatever the
+span reads as, the output reads as — for **every** span (reader locality and fuel monotonicity,
+`p_local`). Also with the spelling-keeping reader the driver uses for inputs. -/
+theorem print_fast_read (span : Bytes) (v : V) (h : read span = .ok v) : read (printFast span) = .ok v :=
+  readWith_append_ws false span [0x0a] (by decide) v h
+
+/-- any whitespace after a JSON text is insignificant to the reference reader -/
+theorem read_trailing_ws (keep : Bool) (s w : Bytes) (hw : w.all isWs = true) (v : V)
+    (h : readWith keep s = .ok v) : readWith keep (s ++ w) = .ok v :=
+  readWith_append_ws keep s w hw v h
+
+/-- `input_wf`: the reader of input documents only produces well-formed values (number tokens in
+the RFC 8259 grammar; a string marked "no backslash in the span" holds no character that JSON
+must escape), so `print_read` applies to every input the CLI accepts. -/
+theorem input_wf (t : Bytes) (v : V) (h : readSrc t = .ok v) : v.wf = true := readSrc_wf t v h
+
+/-- `input_print_read`: for every input text `t` the reader accepts, every option set and every
+route: the printed result reads back as the canonical value of what `t` denotes. -/
+theorem input_print_read (o : Opts) (r : Route) (fmt : Bytes → Bytes)
+    (hfmt : ∀ l, validNum l = true → validNum (fmt l) = true)
+    (t : Bytes) (v : V) (ht : readSrc t = .ok v) (w : Bytes) (hw : w.all isWs = true) :
+    read (body o r fmt v ++ w) = .ok (canon o r fmt v) :=
+  print_read o r fmt hfmt v (readSrc_wf t v ht) w hw
+
+/-- non-vacuity: a span with insignificant whitespace reads, so the echoed output reads as the same value -/
+example : (match read (printFast "{ \"a\" : [1 , 2] }".toUTF8.toList) with
+    | .ok w => some (render { compact := true, unit := [], ascii := true, fmt := id } 0 w)
+    | .error _ => none) = some "{\"a\":[1,2]}".toUTF8.toList := by
+  decide +kernel
 
 /-- non-vacuity: an object with a duplicate key, an escape and a number, pretty-printed with tabs -/
 example :
